@@ -41,6 +41,7 @@ def run(p: Project, tier: str) -> Result:
     check_handlers(p, r)
     check_transitions(p, r)
     check_gate(p, r)
+    check_delayed_interrupts(p, r)
     check_interrupters(p, reach, r)
     return r
 
@@ -361,6 +362,80 @@ def check_gate(p, r):
                                   'nor that the exit is free: a stopped non-accumulating belt admits new items', src(fi.module), fi.node.lineno, bad.describe())
         else:
             r.ok('C13.R4', key, f'gate tested on {n} granting path(s)', src(fi.module), fi.node.lineno)
+
+
+# ------------------------------------------------------------------------------------------- R6
+def check_delayed_interrupts(p, r):
+    """Every delayed interrupt scheduled while the belt is stalled is tracked, and the release transition cancels all of them
+    unconditionally - otherwise a stale interrupt fires after the release and freezes an item on a moving belt."""
+    r.rule('C13.R6', 'delayed interrupts are tracked where they are spawned and cancelled unconditionally when the belt is released', 4)
+    spawners = {}
+    seen = set()
+    for s in belt_store_classes(p):
+        for ci in p.mro(s.ci.key):
+            for fi in ci.methods.values():
+                if fi.key in seen:
+                    continue
+                seen.add(fi.key)
+                for n in walk_no_nested(fi.node):
+                    if isinstance(n, ast.Call) and isinstance(n.func, ast.Attribute) and n.func.attr == 'process' and n.args \
+                            and isinstance(n.args[0], ast.Call) and ast.unparse(n.args[0].func) == 'self._delayed_interrupt':
+                        r.analysed_functions.add(fi.key)
+                        key = site(fi, n, 'delayed-interrupt-spawn')
+                        # tracked: the statement assigns the process to a name that is stored in active_delayed_interrupt_processes[...]
+                        tracked = False
+                        for st_ in walk_no_nested(fi.node):
+                            if isinstance(st_, ast.Assign) and st_.value is n and len(st_.targets) == 1 and isinstance(st_.targets[0], ast.Name):
+                                v = st_.targets[0].id
+                                for st2 in walk_no_nested(fi.node):
+                                    if isinstance(st2, ast.Assign) and isinstance(st2.value, ast.Name) and st2.value.id == v \
+                                            and any(isinstance(t, ast.Subscript) and self_attr(t.value) == 'active_delayed_interrupt_processes' for t in st2.targets):
+                                        tracked = True
+                            if isinstance(st_, ast.Assign) and st_.value is n and any(isinstance(t, ast.Subscript) and self_attr(t.value) == 'active_delayed_interrupt_processes' for t in st_.targets):
+                                tracked = True
+                        spawners.setdefault(ci.key, []).append(fi)
+                        if tracked:
+                            r.ok('C13.R6', key, 'recorded in active_delayed_interrupt_processes', src(fi.module), n.lineno)
+                        else:
+                            r.fail('C13.R6', key, 'a delayed interrupt is scheduled but not recorded anywhere: it cannot be cancelled when the belt is released, fires '
+                                                  'later and freezes an item on a moving belt (the item waits for a resume that never comes)', src(fi.module), n.lineno)
+    # release transition of every conveyor whose belt store schedules delayed interrupts
+    for ci in tables.edge_classes(p):
+        if ci.name != 'ConveyorBelt':
+            continue
+        attr, skeys = tables.edge_store_attr(p, ci)
+        has_spawners = any(c.key in spawners for k in skeys for c in p.mro(k))
+        if not has_spawners:
+            continue
+        fi = ci.methods.get('set_conveyor_state')
+        if fi is None:
+            continue
+        key = f'{fi.key}::release-cancels-delayed-interrupts'
+        rel = None
+        for n in walk_no_nested(fi.node):
+            if isinstance(n, ast.If):
+                t = n.test
+                if isinstance(t, ast.BoolOp) and len(t.values) == 2:
+                    txt = ast.unparse(t)
+                    if txt.index('old_state') < txt.index('new_state') if ('old_state' in txt and 'new_state' in txt) else False:
+                        a, b = t.values
+                        if names_in(a) == STALLED and names_in(b) == MOVING:
+                            rel = n
+        if rel is None:
+            r.fail('C13.R6', key, 'no STALLED → MOVING branch in set_conveyor_state', src(fi.module), fi.node.lineno)
+            continue
+        top = [ast.unparse(x.value.func) for x in rel.body if isinstance(x, ast.Expr) and isinstance(x.value, ast.Call)]
+        nested = [ast.unparse(c.func) for x in rel.body if not isinstance(x, ast.Expr) for c in ast.walk(x) if isinstance(c, ast.Call)]
+        name = f'self.{attr}.interrupt_and_resume_all_delayed_interrupt_processes'
+        if name in top:
+            r.ok('C13.R6', key, 'cancelled unconditionally on release', src(fi.module), rel.lineno)
+        elif name in nested:
+            r.fail('C13.R6', key, 'pending delayed interrupts are cancelled only under a condition when the belt is released, but they are also scheduled when '
+                                  'that condition is false (handle_new_item_during_interruption runs for both belt kinds): a stale interrupt freezes an item '
+                                  'after the release', src(fi.module), rel.lineno)
+        else:
+            r.fail('C13.R6', key, 'the release transition does not cancel the delayed interrupts scheduled during the stall: they fire after the release and '
+                                  'freeze items on a moving belt', src(fi.module), rel.lineno)
 
 
 # ------------------------------------------------------------------------------------------- R5
